@@ -66,31 +66,41 @@ def pointsSelfConsistent (recs : List ORec) : Bool :=
   recs.all fun r => r.streams.all fun s =>
     !(s.ty.startsWith "H" || s.ty.startsWith "X") || s.pts.all fun p => vecSelfConsistent p.2
 
-/-! ### the Sum field of a histogram point whose instrument does not collect a sum
+/-! ### Min / Max of histogram points (reference semantics, independent of the aggregator model)
 
-For up-down counters and gauges (synchronous or observable) the histogram aggregations are built with `noSum`
-(pipeline.go:502-520) and `histogram.delta/cumulative`, `expoHistogram.delta/cumulative` then simply do not WRITE the
-`Sum` field of the destination point (`if !s.noSum { hDPts[i].Sum = val.total }`).  The destination points are
-recycled memory of the caller's ResourceMetrics, so with a reused ResourceMetrics the field keeps whatever the
-previous occupant of that slot stored (finding reported by the C08 builder; nondeterministic through map iteration
-order, hence not modellable).  The driver therefore treats that field as NOT OBSERVED: it is set to 0 before the
-comparison with the model and before the oracle, and a branch tag counts how often a non-zero value was seen. -/
+The aggregator model does not report Min/Max (`PV.hist` carries count, sum, buckets).  What the implementation reports is
+judged against this reference: a delta point carries the smallest and largest value that reached the instrument for
+that attribute set in the cycle, a cumulative point those of all cycles so far; with `NoMinMax` both are absent
+(`metricdata.Extrema` without a value — also when the destination point is recycled memory, F40). -/
 
-def noSumInst (is : List InstCfg) (j : Nat) : Bool :=
-  match is[j]? with
+/-- values that reached instrument `j` in a cycle, as (attribute, value): synchronous records for synchronous
+instruments, the observations replayed by the callbacks registered for it for observable ones -/
+def cycleValues (insts : List InstCfg) (c : CycleIn) (j : Nat) : List (Nat × Int) :=
+  match insts[j]? with
+  | some i => if i.kind.async then effObs c j else (c.recorded.filter (·.1 == j)).map (·.2)
+  | none => []
+
+def extremaOf (vals : List (Nat × Int)) (a : Nat) : Option (Int × Int) :=
+  match (vals.filter (·.1 == a)).map (·.2) with
+  | [] => none
+  | v :: vs => some (vs.foldl min v, vs.foldl max v)
+
+/-- expected Min/Max of the point of attribute `a` reported for instrument `j` at cycle `k` -/
+def refExtrema (insts : List InstCfg) (noMM : List Bool) (cyc : List CycleIn) (j k : Nat) (delta : Bool) (a : Nat) :
+    Option (Int × Int) :=
+  if noMM.getD j false then none
+  else
+    let cs := if delta then (cyc.drop k).take 1 else cyc.take (k + 1)
+    extremaOf (cs.flatMap fun c => cycleValues insts c j) a
+
+/-- the instrument's histogram aggregation does not collect a sum (up-down counters, gauges) -/
+def noSumInst (insts : List InstCfg) (j : Nat) : Bool :=
+  match insts[j]? with
   | some i => (match mkAgg i with | .hist h => h.noSum | .expo h => h.noSum | _ => false)
   | none => false
 
-def zeroSum : Spec.Vec → Spec.Vec
-  | c :: _ :: counts => c :: 0 :: counts
-  | v => v
-
-def normStream (insts : List InstCfg) (s : OStream) : OStream :=
-  match noSumInst insts s.inst with
-  | true => { s with pts := s.pts.map fun p => (p.1, zeroSum p.2) }
-  | false => s
-
-def normalizeNoSum (insts : List InstCfg) (recs : List ORec) : List ORec :=
-  recs.map fun r => { r with streams := r.streams.map (normStream insts) }
+def renderExtrema : Option (Int × Int) → String
+  | none => "-"
+  | some (lo, hi) => s!"{lo}~{hi}"
 
 end Otel.C08
